@@ -170,6 +170,14 @@ elif kind == "subset":
     f = TTFont(a, recalcTimestamp=False)
     opt = subset.Options(); opt.layout_features = ["*"]; opt.notdef_outline = True; opt.name_IDs = ["*"]
     s = subset.Subsetter(opt); cps = sorted((f.getBestCmap() or {}).keys()); s.populate(unicodes=cps[::2] or [0x41]); s.subset(f); print(h(f))
+elif kind == "subsetmany":
+    from fontTools import subset
+    outs = []
+    for spec in b.split(";"):
+        f = TTFont(a, recalcTimestamp=False)
+        opt = subset.Options(); opt.layout_features = ["*"]; opt.notdef_outline = True; opt.name_IDs = ["*"]
+        s = subset.Subsetter(opt); s.populate(unicodes=[int(x, 16) for x in spec.split(",") if x]); s.subset(f); outs.append(h(f)[:12])
+    print(",".join(outs))
 elif kind == "instance":
     from fontTools.varLib import instancer
     f = TTFont(a, recalcTimestamp=False); ax = f["fvar"].axes[0]
@@ -242,6 +250,26 @@ def sweeps(tier, rng):
                 tmp = tempfile.mkdtemp(prefix="fvC16_"); pth = os.path.join(tmp, "b.ttf"); open(pth, "wb").write(d)
                 hs.append(_run_pipe(["subset", pth, "-"], seed)); shutil.rmtree(tmp, ignore_errors=True)
             yield (("subset-bsln", "TestBSLN-1.ttx"), None if len(set(hs)) == 1 else "F12: output differs across PYTHONHASHSEED: %r" % (hs,))
+        # ties in "most common value" decisions (bsln / prop defaults): many small subsets of the AAT test fonts, six hash seeds
+        for nm in ("TestBSLN-1.ttx", "TestBSLN-3.ttx", "TestPROP.ttx"):
+            src = corpus.find(nm)
+            if not src: continue
+            tmp = tempfile.mkdtemp(prefix="fvC16_")
+            try:
+                d = corpus.ttx_bytes(src); pth = os.path.join(tmp, "b.ttf"); open(pth, "wb").write(d)
+                cps = sorted((TTFont(pth).getBestCmap() or {}).keys())
+                if len(cps) < 2: continue
+                specs = [[0x20, 0x30, 0x2EA2]] + [sorted(rng.sample(cps, rng.randint(2, min(5, len(cps))))) for _ in range(7 if tier == "quick" else 40)]
+                arg = ";".join(",".join("%X" % c for c in sp) for sp in specs)
+                hs = [_run_pipe(["subsetmany", pth, arg], seed) for seed in (0, 1, 2, 3, 5, 11)]
+                bad = None
+                if len(set(hs)) != 1:
+                    rows = [x.split(",") for x in hs if not x.startswith("ERR:")]
+                    which = [specs[j] for j in range(len(specs)) if len({r[j] for r in rows if j < len(r)}) > 1]
+                    bad = "subsetting %s to %r gives different files under PYTHONHASHSEED 0/1/2/3/5/11: %r" % (nm, [["U+%04X" % c for c in w] for w in which[:3]], hs)
+                yield (("subset-ties", nm), bad)
+            finally:
+                shutil.rmtree(tmp, ignore_errors=True)
     def run_second_save():
         k = 8 if tier == "quick" else 30 if tier == "search" else len(bins)
         for path in cover(k):
@@ -490,7 +518,35 @@ def sweeps(tier, rng):
             except Exception as e:
                 bad = "history raised %r" % (e,)
             yield (("api-history", seed), bad)
-    return [Sweep("hash-seeds", run_hashseed), Sweep("second-save", run_second_save), Sweep("edit-history", run_edit_history), Sweep("api-history", run_api_history)]
+    def run_source_date_epoch():
+        """SOURCE_DATE_EPOCH pins the clock: with it set — to ANY value, 0 included — two saves at different wall-clock times are the same file"""
+        import time as _time
+        from fontTools.misc import timeTools
+        paths = corpus.pick(rng, [p for p in bins if p.endswith(".ttf")], 2 if tier == "quick" else 8)
+        real_time = _time.time; saved_env = os.environ.get("SOURCE_DATE_EPOCH")
+        try:
+            for epoch in ("0", "1", "86400", "1500000000", "2082844800", str(rng.randint(2, 2**31))):
+                os.environ["SOURCE_DATE_EPOCH"] = epoch
+                for p in paths:
+                    outs = []
+                    try:
+                        for clock in (1.6e9, 1.7e9 + 12345.5):
+                            _time.time = lambda c=clock: c
+                            f = TTFont(p, recalcTimestamp=True); o = io.BytesIO(); f.save(o); outs.append(o.getvalue())
+                        g = TTFont(io.BytesIO(outs[0]))
+                        bad = None
+                        if outs[0] != outs[1]: bad = "SOURCE_DATE_EPOCH=%s: two saves at different clock times differ (head.modified follows the wall clock)" % epoch
+                        elif g["head"].modified != int(epoch) + 2082844800: bad = "SOURCE_DATE_EPOCH=%s: head.modified is %d, not the pinned %d" % (epoch, g["head"].modified, int(epoch) + 2082844800)
+                    except Exception as e:
+                        bad = "save under SOURCE_DATE_EPOCH=%s raised %r" % (epoch, e)
+                    finally:
+                        _time.time = real_time
+                    yield (("source-date-epoch", epoch, corpus.rel(p)), bad)
+        finally:
+            _time.time = real_time
+            if saved_env is None: os.environ.pop("SOURCE_DATE_EPOCH", None)
+            else: os.environ["SOURCE_DATE_EPOCH"] = saved_env
+    return [Sweep("hash-seeds", run_hashseed), Sweep("second-save", run_second_save), Sweep("edit-history", run_edit_history), Sweep("api-history", run_api_history), Sweep("source-date-epoch", run_source_date_epoch)]
 
 def classify(sweep, case, failure):
     s = str(failure)
